@@ -1,5 +1,6 @@
 //! Item algebras driven through the real `Segtree`: two harness-defined lawful algebras (a finite
-//! non-commutative one that closes, and the free algebra) and the crate's built-in items.
+//! non-commutative one that closes, and the free algebra) and the crate's built-in items; at the end
+//! `Via` / `Pair`, which put a harness item and a built-in item into one `Combinator` as independent parts.
 
 use rlib_num_traits::ZeroOne;
 use rlib_segtree::segtree_items::{Combinator, Max, MaxAdd, Min, MinAdd, Sum, SumAdd};
@@ -1095,5 +1096,338 @@ impl Alg for AlgAp {
     }
     fn encode_elem(e: &u8, out: &mut Vec<u8>) {
         out.push(*e);
+    }
+}
+
+// ------------------------------------------------------------------------------------------------
+// Via<T, X>: a harness item driven through ANOTHER modifier alphabet.  `Combinator<U, V>` hands one and the
+// same modifier to both parts, so a harness item can sit next to a built-in one only if it accepts the
+// built-in's modifier type.  A translation X maps every modifier k of that type to a modifier of the
+// harness algebra; the wrapped item composes and pushes the translated modifiers exactly as before, so the
+// laws carry over whatever X is (the tree never composes modifiers itself, it only hands them to items).
+// The translations below are chosen so that the two parts of a pair are INDEPENDENT: modifiers that cancel
+// in the built-in part (+1 then -1, or 0) do not cancel in the harness part, a modifier that is the
+// identity of the harness part (+2 for the words) is not the identity of the built-in part, and the
+// harness part's modifiers do not commute.
+
+pub trait Tr: Send + Sync + 'static {
+    /// the outer modifier type (the built-in item's)
+    type K: Clone + PartialEq + Send + Sync + std::fmt::Debug;
+    /// the harness algebra's own modifier type
+    type M;
+    fn alphabet() -> Vec<Self::K>;
+    fn tr(k: &Self::K) -> Self::M;
+}
+
+pub struct Via<T, X>(pub T, std::marker::PhantomData<fn() -> X>);
+
+impl<T, X> Via<T, X> {
+    fn wrap(t: T) -> Self {
+        Via(t, std::marker::PhantomData)
+    }
+}
+impl<T: Clone, X> Clone for Via<T, X> {
+    fn clone(&self) -> Self {
+        Via::wrap(self.0.clone())
+    }
+}
+impl<T: Default, X> Default for Via<T, X> {
+    fn default() -> Self {
+        Via::wrap(T::default())
+    }
+}
+impl<T: std::fmt::Debug, X> std::fmt::Debug for Via<T, X> {
+    fn fmt(&self, f: &mut std::fmt::Formatter<'_>) -> std::fmt::Result {
+        self.0.fmt(f)
+    }
+}
+
+impl<T: SegtreeItem<X::M>, X: Tr> SegtreeItem<X::K> for Via<T, X> {
+    fn merge(l: &Self, r: &Self) -> Self {
+        Via::wrap(T::merge(&l.0, &r.0))
+    }
+    fn modify(&mut self, k: &X::K) {
+        self.0.modify(&X::tr(k));
+    }
+    fn push(&mut self, l: &mut Self, r: &mut Self) {
+        self.0.push(&mut l.0, &mut r.0);
+    }
+}
+
+/// The algebra A with its items wrapped in `Via<_, X>`: same elements, same observations, same predicates;
+/// the modifier alphabet is X's and acts on the plain array through the translation.
+pub struct ViaAlg<A, X>(std::marker::PhantomData<(A, X)>);
+
+impl<A: Alg, X: Tr<M = A::M>> Alg for ViaAlg<A, X> {
+    type T = Via<A::T, X>;
+    type M = X::K;
+    type E = A::E;
+    type Obs = A::Obs;
+    const NAME: &'static str = "Via";
+    fn n_elems() -> usize {
+        A::n_elems()
+    }
+    fn elem(idx: usize, f: &mut u32) -> A::E {
+        A::elem(idx, f)
+    }
+    fn item(e: &A::E) -> Self::T {
+        Via::wrap(A::item(e))
+    }
+    fn dirty_item(e: &A::E) -> Option<Self::T> {
+        A::dirty_item(e).map(Via::wrap)
+    }
+    fn mods() -> Vec<X::K> {
+        X::alphabet()
+    }
+    fn apply(e: &mut A::E, k: &X::K) {
+        A::apply(e, &X::tr(k))
+    }
+    fn fold(xs: &[A::E]) -> A::Obs {
+        A::fold(xs)
+    }
+    fn observe(t: &Self::T) -> A::Obs {
+        A::observe(&t.0)
+    }
+    fn obs_len(o: &A::Obs) -> Option<usize> {
+        A::obs_len(o)
+    }
+    fn accept(got: &A::Obs, xs: &[A::E]) -> bool {
+        A::accept(got, xs)
+    }
+    fn preds(n: usize) -> Vec<Pred> {
+        A::preds(n)
+    }
+    fn pred_ok(p: &Pred, model: &[A::E]) -> bool {
+        A::pred_ok(p, model)
+    }
+    fn holds(p: &Pred, o: &A::Obs) -> bool {
+        A::holds(p, o)
+    }
+    fn holds_on(p: &Pred, model: &[A::E], l: usize, r: usize) -> bool {
+        A::holds_on(p, model, l, r)
+    }
+    fn encode(t: &Self::T, out: &mut Vec<u8>) {
+        A::encode(&t.0, out)
+    }
+    fn encode_elem(e: &A::E, out: &mut Vec<u8>) {
+        A::encode_elem(e, out)
+    }
+}
+
+/// i64 additions -> the four functions {0,1}->{0,1}, a bijection on {+1, -1, +2, 0} that maps neither
+/// identity to the other: +1 -> not, -1 -> const0 (so +1 then -1 is const0, -1 then +1 is const1),
+/// +2 -> identity, 0 -> const1.
+pub struct AddAsFn;
+impl Tr for AddAsFn {
+    type K = i64;
+    type M = u8;
+    fn alphabet() -> Vec<i64> {
+        vec![1, -1, 2, 0]
+    }
+    fn tr(k: &i64) -> u8 {
+        match *k {
+            1 => 0b01,
+            -1 => 0b00,
+            2 => ID,
+            _ => 0b11,
+        }
+    }
+}
+
+/// i64 additions -> letters of the free algebra (injective: the harness part records the exact sequence of
+/// modifiers, so every lawful partner of the built-in item is a homomorphic image of this one)
+pub struct AddAsLetter;
+impl Tr for AddAsLetter {
+    type K = i64;
+    type M = u8;
+    fn alphabet() -> Vec<i64> {
+        vec![1, -1, 2, 0]
+    }
+    fn tr(k: &i64) -> u8 {
+        match *k {
+            1 => 1,
+            -1 => 2,
+            2 => 3,
+            _ => 4,
+        }
+    }
+}
+
+/// i64 additions -> affine maps of Z3: +1 -> x+1, -1 -> :=0, +2 -> x+2, 0 -> :=1
+pub struct AddAsAffine;
+impl Tr for AddAsAffine {
+    type K = i64;
+    type M = (u8, u8);
+    fn alphabet() -> Vec<i64> {
+        vec![1, -1, 2, 0]
+    }
+    fn tr(k: &i64) -> (u8, u8) {
+        match *k {
+            1 => (1, 1),
+            -1 => (0, 0),
+            2 => (1, 2),
+            _ => (0, 1),
+        }
+    }
+}
+
+/// Z4 additions -> functions {0,1}->{0,1}: 1 -> not, 2 -> const0, 3 -> const1 (1+3 = 2+2 = 0 in Z4, while
+/// not∘const1, const0∘const0 are not the identity) — finite on both sides, so the pair closes
+pub struct Z4AsFn;
+impl Tr for Z4AsFn {
+    type K = Z4;
+    type M = u8;
+    fn alphabet() -> Vec<Z4> {
+        vec![Z4(1), Z4(2), Z4(3)]
+    }
+    fn tr(k: &Z4) -> u8 {
+        match k.0 {
+            1 => 0b01,
+            2 => 0b00,
+            3 => 0b11,
+            _ => ID,
+        }
+    }
+}
+
+/// the data-less modifier of the NON-lazy built-ins (`M = ()`) -> x+1 on Z3 (order 3, so the harness part
+/// is lazy although its partner never has anything pending)
+pub struct UnitAsInc;
+impl Tr for UnitAsInc {
+    type K = ();
+    type M = (u8, u8);
+    fn alphabet() -> Vec<()> {
+        vec![()]
+    }
+    fn tr(_k: &()) -> (u8, u8) {
+        (1, 1)
+    }
+}
+
+pub type AlgWAdd = ViaAlg<AlgW, AddAsFn>;
+pub type AlgFrAdd = ViaAlg<AlgFr, AddAsLetter>;
+pub type AlgA3Add = ViaAlg<AlgA3, AddAsAffine>;
+pub type AlgWZ4 = ViaAlg<AlgW, Z4AsFn>;
+pub type AlgA3Unit = ViaAlg<AlgA3, UnitAsInc>;
+
+// ------------------------------------------------------------------------------------------------
+// Pair<A, B>: Combinator<A::T, B::T> of two INDEPENDENT algebras that share only the modifier type.  The
+// reference is the pair of the two references: one plain array per part, every modifier applied to both.
+
+pub struct Pair<A, B>(std::marker::PhantomData<(A, B)>);
+
+fn unzip<X: Clone, Y: Clone>(xs: &[(X, Y)]) -> (Vec<X>, Vec<Y>) {
+    xs.iter().cloned().unzip()
+}
+
+impl<A, B> Alg for Pair<A, B>
+where
+    A: Alg,
+    B: Alg<M = A::M>,
+    A::M: Clone + PartialEq,
+{
+    type T = Combinator<A::T, B::T>;
+    type M = A::M;
+    type E = (A::E, B::E);
+    type Obs = (A::Obs, B::Obs);
+    const NAME: &'static str = "Pair";
+    /// two element letters, (first of A, first of B) and (second of A, second of B) (an alphabet of one letter
+    /// repeating): the parts interact through their pending modifiers, not through their values, and the
+    /// range modifications make the values differ anyway; the full element alphabets are explored in the
+    /// parts' own runs
+    fn n_elems() -> usize {
+        A::n_elems().max(B::n_elems()).min(2)
+    }
+    fn elem(idx: usize, f: &mut u32) -> Self::E {
+        (A::elem(idx % A::n_elems(), f), B::elem(idx % B::n_elems(), f))
+    }
+    fn item(e: &Self::E) -> Self::T {
+        Combinator(A::item(&e.0), B::item(&e.1))
+    }
+    fn item_at(e: &Self::E, i: usize) -> Self::T {
+        Combinator(A::item_at(&e.0, i), B::item_at(&e.1, i))
+    }
+    fn fillable() -> bool {
+        A::fillable() && B::fillable()
+    }
+    fn dirty_item(e: &Self::E) -> Option<Self::T> {
+        let (a, b) = (A::dirty_item(&e.0), B::dirty_item(&e.1));
+        if a.is_none() && b.is_none() {
+            return None;
+        }
+        Some(Combinator(a.unwrap_or_else(|| A::item(&e.0)), b.unwrap_or_else(|| B::item(&e.1))))
+    }
+    /// union of the two alphabets, first part's letters first
+    fn mods() -> Vec<A::M> {
+        let mut v = A::mods();
+        for m in B::mods() {
+            if !v.contains(&m) {
+                v.push(m);
+            }
+        }
+        v
+    }
+    fn apply(e: &mut Self::E, m: &A::M) {
+        A::apply(&mut e.0, m);
+        B::apply(&mut e.1, m);
+    }
+    fn apply_at(e: &mut Self::E, m: &A::M, k: usize) {
+        A::apply_at(&mut e.0, m, k);
+        B::apply_at(&mut e.1, m, k);
+    }
+    fn fold(xs: &[Self::E]) -> Self::Obs {
+        let (a, b) = unzip(xs);
+        (A::fold(&a), B::fold(&b))
+    }
+    fn observe(t: &Self::T) -> Self::Obs {
+        (A::observe(&t.0), B::observe(&t.1))
+    }
+    fn obs_len(o: &Self::Obs) -> Option<usize> {
+        A::obs_len(&o.0).or_else(|| B::obs_len(&o.1))
+    }
+    fn accept(got: &Self::Obs, xs: &[Self::E]) -> bool {
+        let (a, b) = unzip(xs);
+        A::accept(&got.0, &a) && B::accept(&got.1, &b)
+    }
+    fn preds(n: usize) -> Vec<Pred> {
+        let mut v: Vec<Pred> = A::preds(n).into_iter().map(|p| Pred::L(Box::new(p))).collect();
+        v.extend(B::preds(n).into_iter().map(|p| Pred::R(Box::new(p))));
+        v
+    }
+    fn pred_ok(p: &Pred, model: &[Self::E]) -> bool {
+        match p {
+            Pred::L(q) => A::pred_ok(q, &unzip(model).0),
+            Pred::R(q) => B::pred_ok(q, &unzip(model).1),
+            _ => unreachable!(),
+        }
+    }
+    fn holds(p: &Pred, o: &Self::Obs) -> bool {
+        match p {
+            Pred::L(q) => A::holds(q, &o.0),
+            Pred::R(q) => B::holds(q, &o.1),
+            _ => unreachable!(),
+        }
+    }
+    /// only the part the predicate looks at is folded
+    fn holds_on(p: &Pred, model: &[Self::E], l: usize, r: usize) -> bool {
+        match p {
+            Pred::L(q) => {
+                let a: Vec<A::E> = model[l..=r].iter().map(|e| e.0.clone()).collect();
+                A::holds_on(q, &a, 0, r - l)
+            }
+            Pred::R(q) => {
+                let b: Vec<B::E> = model[l..=r].iter().map(|e| e.1.clone()).collect();
+                B::holds_on(q, &b, 0, r - l)
+            }
+            _ => unreachable!(),
+        }
+    }
+    fn encode(t: &Self::T, out: &mut Vec<u8>) {
+        A::encode(&t.0, out);
+        B::encode(&t.1, out);
+    }
+    fn encode_elem(e: &Self::E, out: &mut Vec<u8>) {
+        A::encode_elem(&e.0, out);
+        B::encode_elem(&e.1, out);
     }
 }
